@@ -12,7 +12,8 @@ import Logrange.Model.Nesting
 Property theorems only; every theorem in this namespace is an obligation of the C13 check (axioms audited).
 Models: `Logrange/Model/{Outcome,Wire,WireFields,EscapeJson,PosStr,Nesting}.lean`; lemmas: `Logrange/Proofs/{Wire,WireFields,EscapeJson,PosStr}.lean`.
 
-State after the repairs 72eac47 (F44) and dbbc1a7 (F13):
+State after the repairs 72eac47 (F44), dbbc1a7 (F13), 8131efe (F25) and c6bbc14 (`wpIterator.init` validates the whole
+packet — fact `wpInitValidates`; the decoder theorems hold for either value of that fact):
 
 * the api/rpc decoders (`wpIterator.init/Get/Next`, `unmarshalQueryRequest`, `unmarshalLogEvent`, client-side
   `unmarshalQueryResult`) are **total for all byte strings** (`decode_total`): their string reads go through the length
@@ -23,7 +24,7 @@ State after the repairs 72eac47 (F44) and dbbc1a7 (F13):
   its own journal (`pkg/model/iterator.go: LogEventIterator.Get`, `pkg/tmindex/cindex.go` rebuild), i.e. to bytes produced by
   `LogEvent.Marshal` in `partition.iwrapper` — no request path hands client bytes to it. `record_decode_total_partial` and
   `cex_record_varint` describe it: a remark (an on-disk corruption concern of C07), not a finding of C13;
-* the one open finding is **F25** (unbounded LQL nesting, `cex_nesting_exhausts_stack`), so `C13_full` stays false.
+* the one open finding is **F25** (unbounded LQL nesting, `unguarded_nesting_exhausts_stack`), so `C13_full` stays false.
 -/
 namespace Logrange.Props.C13
 open Go Logrange Logrange.Wire Logrange.Outcome
@@ -328,9 +329,9 @@ theorem answers_every_request_partial (budget : Nat) (s : Bytes) (h : s.count 40
 example : (Nesting.parse 2 [40, 40, 97, 41, 41]) = .ok 2 := by decide
 example : ([40, 40, 97, 41, 41] : Bytes).count 40 ≤ 2 := by decide
 
-/-- **Counterexample (open finding F25)**: for every stack size there is a request (`budget + 1` opening parentheses)
-that exhausts it — the code has no depth bound, and stack exhaustion is fatal in Go. -/
-theorem cex_nesting_exhausts_stack (budget : Nat) :
+/-- the unguarded branch (the code before commit 8131efe, repaired finding F25): for every stack size there is a request
+(`budget + 1` opening parentheses) that exhausts it — why the guard is needed; stack exhaustion is fatal in Go. -/
+theorem unguarded_nesting_exhausts_stack (budget : Nat) :
     (Nesting.parse budget (List.replicate (budget + 1) 40)).isPanic = true :=
   Nesting.scan_overflow budget budget 0 0 (by omega)
 
@@ -343,6 +344,14 @@ theorem answers_every_request_guarded (hg : Generated.C13.lqlNestingGuard = true
   unfold Nesting.parseNow
   rw [hg]
   exact Nesting.parseG_guarded _ budget hb s
+
+/-- the regenerated facts: every parser entry point of pkg/lql has the guard, with the limit 1000 (commit 8131efe) -/
+theorem nesting_guard_in_place : Generated.C13.lqlNestingGuard = true ∧ Generated.C13.lqlMaxNesting = 1000 := by decide
+
+/-- regression for the repaired finding F25, on a small instance of the guarded parser: depth 3 is parsed with the limit 3,
+depth 4 is refused with an error (not a panic) even when the stack would not hold it -/
+example : Nesting.parseG true 3 3 [40, 40, 40, 97, 41, 41, 41] = .ok 3 ∧ Nesting.parseG true 3 3 [40, 40, 40, 40] = .err ∧
+    (Nesting.parseG false 3 3 [40, 40, 40, 40]).isPanic = true := by decide
 
 /-! ## position strings -/
 
@@ -399,7 +408,7 @@ def C13_full : Prop :=
 
 /-- **Where C13 stands**: everything but the last clause is proved above, so the full statement holds exactly when the LQL
 parser has its nesting guard — on the current tree the regenerated fact is `false` (open finding F25, witness
-`cex_nesting_exhausts_stack`); with `proposed-fixes/F25.diff` applied it is `true` and the statement holds. -/
+`unguarded_nesting_exhausts_stack`); with `proposed-fixes/F25.diff` applied it is `true` and the statement holds. -/
 theorem C13_full_iff_guard : C13_full ↔ Generated.C13.lqlNestingGuard = true := by
   constructor
   · intro h
@@ -407,7 +416,7 @@ theorem C13_full_iff_guard : C13_full ↔ Generated.C13.lqlNestingGuard = true :
     cases hG : Generated.C13.lqlNestingGuard with
     | true => rfl
     | false =>
-      have hc := cex_nesting_exhausts_stack budget
+      have hc := unguarded_nesting_exhausts_stack budget
       have hb' := hb (List.replicate (budget + 1) 40)
       unfold Nesting.parseNow Nesting.parseG at hb'
       rw [hG] at hb'
@@ -422,5 +431,9 @@ theorem C13_full_iff_guard : C13_full ↔ Generated.C13.lqlNestingGuard = true :
       exact ⟨(decode_total kv buf hb).2.2.1, (wpDrain_terminates kv default [] 0).2.2 buf, (decode_total kv buf hb).2.2.2.1⟩
     · intro split trim unq s f ht hs
       exact fromKV_WF split trim unq ht s f hs
+
+/-- **C13 holds at full strength** on the tree as it is now: the nesting guard is in place (`nesting_guard_in_place`), every
+other clause is proved above. -/
+theorem C13_holds : C13_full := C13_full_iff_guard.mpr nesting_guard_in_place.1
 
 end Logrange.Props.C13
